@@ -84,6 +84,10 @@ _TOTALS = ("systems", "solves", "resolves", "nontrivial_systems", "cyc_beyond_ca
 
 def post_stage(stage, res, verdict):
     x = verdict.extra
+    # a case that dies takes its observation (and its counters) with it: count the labelled aborts from the crash records
+    for c in res["crashes"]:
+        if "pivot-below-equals-tolerance" in ((c.get("pre") or {}).get("class") or ""):
+            x["aborts_with_pivot_below_equals_tolerance"] = x.get("aborts_with_pivot_below_equals_tolerance", 0) + 1
     for o in res["obs"]:
         info = o.get("info") or {}
         for k in _TOTALS:
@@ -107,7 +111,7 @@ def finalize(verdict):
         "systems_with_nonzero_offdiagonal": x.pop("n_nontrivial_systems", 0),
         "cyclic_solves_beyond_amp_cap": x.pop("n_cyc_beyond_cap", 0),
         "generated_not_spd": x.pop("n_not_spd", 0),
-        "systems_with_pivot_below_equals_tolerance": x.pop("n_pivot_below_equals_tol", 0),
+        "survived_systems_with_pivot_below_equals_tolerance": x.pop("n_pivot_below_equals_tol", 0),
         "amp_cap": AMP_CAP,
     }
     x.update(out)
